@@ -131,3 +131,40 @@ func awaitTrue(cond func() bool, max time.Duration) bool {
 
 	return cond()
 }
+
+// Audit (ninth round, C20-4): Shutdown() only spawned the goroutine that marks the daemon as stopped. Right after the
+// call returned, BackgroundWorker still accepted (and launched) a worker, and Start on a daemon that had not been
+// started launched every registered worker. Repaired in /repo by f78b163 (the flag is set before Shutdown returns).
+func TestRegressionNothingStartsAfterAsyncShutdown(t *testing.T) {
+	const check = "regression_nothing_starts_after_async_shutdown"
+	stats.Rule(check, "fixed histories repeated 200 times: (1) Start; Shutdown(); BackgroundWorker must return ErrDaemonAlreadyStopped and its handler never runs; (2) one registered worker, Shutdown() on the daemon that was never started, Start(): the worker is never launched. Both are followed by ShutdownAndWait and a settle period")
+	n := 200
+	for i := 0; i < n; i++ {
+		var ran atomic.Int64
+		h := func(ctx context.Context) { ran.Add(1); <-ctx.Done() }
+		d := daemon.New()
+		d.Start()
+		d.Shutdown()
+		err := d.BackgroundWorker("late", h, 5)
+		d.ShutdownAndWait()
+		if err == nil || ran.Load() != 0 {
+			f := fmt.Sprintf("iteration %d: BackgroundWorker after Shutdown() returned err=%v, handler runs=%d", i, err, ran.Load())
+			stats.Violation(check, map[string]any{"history": "Start; Shutdown; BackgroundWorker", "failure": f})
+			t.Fatalf("%s: %s", check, f)
+		}
+		d = daemon.New()
+		if err := d.BackgroundWorker("w", h, 1); err != nil {
+			t.Fatal(err)
+		}
+		d.Shutdown()
+		d.Start()
+		d.ShutdownAndWait()
+		ctl.Settle(200 * time.Microsecond)
+		if ran.Load() != 0 {
+			f := fmt.Sprintf("iteration %d: Start after Shutdown() launched the registered worker", i)
+			stats.Violation(check, map[string]any{"history": "BackgroundWorker; Shutdown; Start", "failure": f})
+			t.Fatalf("%s: %s", check, f)
+		}
+	}
+	stats.Bulk(check, int64(n), 2, false, "Start;Shutdown;BackgroundWorker / BackgroundWorker;Shutdown;Start")
+}
